@@ -45,5 +45,27 @@ PROPS['C14'] = dict(
         dict(name='suscpart_2x2_r0_z1', harness='h_suscpart', defs=['OUTER=2', 'INNER=2', 'REGIME=0', 'ZCASE=1'],
              split={'A': R(16), 'B': R(16)}, witnesses=['computed', 'zero_pole'], validate=[{'A': 15, 'B': 15}]),
         dict(name='suscpart_2x2_r1_z0', harness='h_suscpart', defs=['OUTER=2', 'INNER=2', 'REGIME=1', 'ZCASE=0'],
-             split={'A': R(16), 'B': R(16)}, witnesses=['computed', 'poles_merged'], validate=[{'A': 15, 'B': 15}]),
+             split={'A': R(16), 'B': R(16)}, witnesses=['computed', 'poles_merged'],
+             validate=[{'A': 15, 'B': 15, 'wout0': 2, 'wout1': 3, 'win0': '1/2', 'win1': '1/4'}]),
     ])
+
+PROPS['C18'] = dict(
+    claim='Symbolic execution of the real IndexClassification code (with the real std::map / boost::hash code) for every '
+          'combination of orbital and spin counts inside the bound, both ordering modes, three label sets.',
+    bounds={Q: '2 sites with 1..2 orbitals/spins (3 label sets), 3 sites 1..2', T: '3 sites with 1..3 orbitals and spins'},
+    assumptions=['labels are taken from three fixed label sets (hash collisions of boost::hash on other labels are outside the claim)'],
+    outside=['label sets other than the three fixed ones', 'more than 3 sites / 3 orbitals / 3 spins',
+             'invariance of the physics under relabelling is decided in C04 units (index permutation)'],
+    units=[dict(name='index_s2_o%d_l%d' % (o, l), harness='h_index',
+                defs=['NSITES=2', 'MAXORB=2', 'MAXSPN=2', 'ORDER=%d' % o, 'LABELS=%d' % l],
+                split={'orb0': [1, 2], 'spn0': [1, 2]}, witnesses=['prepared', 'done', 'heterogeneous_sites'],
+                validate=[{'orb0': 2, 'spn0': 2, 'orb1': 1, 'spn1': 2}, {'orb0': 1, 'spn0': 1, 'orb1': 2, 'spn1': 2}])
+           for o in (0, 1) for l in (0, 1, 2)] +
+          [dict(name='indexinfo_order', harness='h_indexinfo', defs=[], witnesses=['done'])] +
+          [dict(name='index_s3_o%d' % o, harness='h_index', defs=['NSITES=3', 'MAXORB=2', 'MAXSPN=2', 'ORDER=%d' % o, 'LABELS=0'],
+                split={'orb0': [1, 2], 'spn0': [1, 2], 'orb1': [1, 2], 'spn1': [1, 2]},
+                witnesses=['prepared', 'done', 'heterogeneous_sites']) for o in (0, 1)] +
+          [dict(name='index_s3_333_o%d' % o, harness='h_index', defs=['NSITES=3', 'MAXORB=3', 'MAXSPN=3', 'ORDER=%d' % o, 'LABELS=1'],
+                split={'orb0': [1, 2, 3], 'spn0': [1, 2, 3], 'orb1': [1, 2, 3], 'spn1': [1, 2, 3]}, tiers=[T],
+                witnesses=['prepared', 'done', 'heterogeneous_sites']) for o in (0, 1)],
+)
